@@ -158,6 +158,10 @@ func main() {
 		fatal(err)
 	}
 	defer os.RemoveAll(scratch)
+	if d := os.Getenv("SYMGO_TRANSCRIPT"); d != "" {
+		eng.crossDir = d
+		os.MkdirAll(d, 0o755)
+	}
 	if *cross {
 		eng.crossDir = filepath.Join(scratch, "cross")
 		os.MkdirAll(eng.crossDir, 0o755)
